@@ -151,6 +151,12 @@ func (e *Engine) send(pid *PID, msg any, sender *PID) {
 		return
 	}
 	if e.remote == nil {
+		// The report about an undeliverable message is not reported again when it is
+		// undeliverable itself: an event-stream subscriber with a foreign address would
+		// otherwise turn every event into an endless chain of EngineRemoteMissingEvents.
+		if _, ok := msg.(EngineRemoteMissingEvent); ok {
+			return
+		}
 		e.BroadcastEvent(EngineRemoteMissingEvent{Target: pid, Sender: sender, Message: msg})
 		return
 	}
